@@ -15,7 +15,8 @@ def spawn_program(n, rnd, fatal_at=None, nested=False):
     src.append("    println(\"c\", id, tag, \"a\", l);")
     src.append("    cnt += id;")
     src.append("    let seen = cnt;")
-    src.append("    println(\"c\", id, tag, \"b\", seen >= id);")
+    # (`cnt += id` is a read and a write: another thread's stale write may follow it, but whatever is written is >= 1)
+    src.append("    println(\"c\", id, tag, \"b\", seen >= 1);")
     if nested:
         src.append("    if id == 1 { spawn grand(id * 10, tag + \"g\"); }")
     if fatal_at is not None:
